@@ -544,6 +544,10 @@ func randRows(c *Ctx) string {
 		n = 9 + c.Rng.Intn(8)
 	}
 	var rows []string
+	style := 0
+	if c.Rng.Intn(4) == 0 {
+		style = 1 + c.Rng.Intn(3)
+	}
 	for i := 0; i < n; i++ {
 		l := 1 + c.Rng.Intn(8)
 		if c.Rng.Intn(8) == 0 {
@@ -556,7 +560,16 @@ func randRows(c *Ctx) string {
 		for j := range b {
 			b[j] = rowAlpha[(i+j)%len(rowAlpha)]
 		}
-		rows = append(rows, string(b))
+		row := string(b)
+		switch style {
+		case 1: // right-aligned numbering: leading blanks
+			row = fmt.Sprintf("%3d %s", i+1, row)
+		case 2: // blanks and tabs at either end
+			row = []string{" ", "  ", "\t", ""}[c.Rng.Intn(4)] + row + []string{" ", "", "", "\t"}[c.Rng.Intn(4)]
+		case 3: // multi-byte characters
+			row = []string{"ä", "€", "日本", "ß"}[c.Rng.Intn(4)] + row + []string{"", "é", "語"}[c.Rng.Intn(3)]
+		}
+		rows = append(rows, row)
 	}
 	s := strings.Join(rows, "\n")
 	switch c.Rng.Intn(10) {
@@ -572,7 +585,7 @@ func genRenderCase(c *Ctx) *rCase {
 	rc := &rCase{labels: map[string]string{}, nolabel: map[string]bool{}}
 	// symbols
 	sinkKind := c.Rng.Intn(10) // 0-5 symbol sink, 6-7 menu sink, 8-9 no sink
-	pre := []string{"", "T\n", "Head: ", "Title line\n\n"}[c.Rng.Intn(4)]
+	pre := []string{"", "T\n", "Head: ", "Title line\n\n", "Größe wählen: ", " lead\n"}[c.Rng.Intn(6)]
 	suf := []string{"", "\nfoot", " end", "\n"}[c.Rng.Intn(4)]
 	tpl := pre
 	if sinkKind <= 5 {
@@ -614,7 +627,7 @@ func genRenderCase(c *Ctx) *rCase {
 		nm = c.Rng.Intn(9)
 	}
 	for i := 0; i < nm; i++ {
-		rc.menu = append(rc.menu, [2]string{strconv.Itoa(i + 1), []string{"foo", "inky", "pinky", "a longer title", "b"}[c.Rng.Intn(5)]})
+		rc.menu = append(rc.menu, [2]string{strconv.Itoa(i + 1), []string{"foo", "inky", "pinky", "a longer title", "b", "größer"}[c.Rng.Intn(6)]})
 	}
 	if c.Rng.Intn(5) > 0 {
 		rc.next = &[2]string{[]string{"11", "n", "00"}[c.Rng.Intn(3)], []string{"next", "nx", "fwd page"}[c.Rng.Intn(3)]}
